@@ -6,7 +6,7 @@ from typing import Any, Optional
 
 from ..absint import Env, Facts, Lin, Opaque, entails_ge0, evaluate
 from ..astutil import call_name, guards, is_self_attr
-from ..frontend import AnalysisError, FunctionInfo, norm, parent, walk_local
+from ..frontend import ancestors, AnalysisError, FunctionInfo, norm, parent, walk_local
 from ..iterconsume import ConsumeAnalysis, iterator_params
 from ..report import Ctx
 from ..yieldcount import YieldCounter, YState, verdict
@@ -122,6 +122,38 @@ def rule_r2(ctx: Ctx) -> None:
             if a not in ctx.assumptions:
                 ctx.assumptions.append(a)
     ctx.floor("C15.R2", n, 20, "yield-count paths over steps and initializers")
+    # a failed attempt is retried until it yields: a yield inside a try whose handler swallows the exception must sit in a loop that
+    # can only be left by a successful yield (a counter loop, or 'while True' left by a break / return after the yield)
+    for f, kname, pname in targets:
+        for t in walk_local(f.node):
+            if not (isinstance(t, ast.Try) and any(isinstance(y, (ast.Yield, ast.YieldFrom)) for b in t.body for y in ast.walk(b))):
+                continue
+            swallow = [h for h in t.handlers if not any(isinstance(x, (ast.Raise, ast.Return, ast.Yield, ast.YieldFrom)) for b in h.body for x in ast.walk(b))]
+            if not swallow:
+                continue
+            loop = next((a for a in ancestors(t) if isinstance(a, (ast.For, ast.While, ast.AsyncFor))), None)
+            if loop is None:
+                continue
+            ok: Optional[bool]
+            why = ""
+            yidx = next(i for i, b in enumerate(t.body) if any(isinstance(y, (ast.Yield, ast.YieldFrom)) for y in ast.walk(b)))
+            after = [x for b in t.body[yidx + 1:] for x in ast.walk(b)]
+            if isinstance(loop, ast.While):
+                test_names = {x.id for x in ast.walk(loop.test) if isinstance(x, ast.Name)}
+                counted = any(isinstance(x, ast.AugAssign) and isinstance(x.target, ast.Name) and x.target.id in test_names for x in after)
+                forever = isinstance(loop.test, ast.Constant) and loop.test.value is True
+                left_after = any(isinstance(x, (ast.Break, ast.Return)) for x in after)
+                exits_elsewhere = [x for b in loop.body for x in ast.walk(b) if isinstance(x, ast.Break) and x not in after]
+                if counted or (forever and left_after and not exits_elsewhere):
+                    ok = True
+                else:
+                    ok, why = None, "the retry loop around a swallowed failure is neither a counter loop nor 'while True' left after the yield"
+            else:
+                ok = False
+                why = (f"a failed attempt ('except {norm(swallow[0].type)[:30] if swallow[0].type is not None else ''}' swallows it) consumes an iteration of "
+                       f"'{norm(loop).splitlines()[0][:50]}' without yielding: when every attempt of that bounded loop fails nothing is yielded for the slot "
+                       f"and the initial population is smaller than target_size")
+            ctx.ob("C15.R2", f, t, f"{f.qualname}: a swallowed failure is retried until something is yielded", ok, why)
 
     # ---- R2p parallel family
     cr_impls = [f for c in prog.subclasses(STEP) for f in [c.methods.get("compute_ranges")] if f is not None]
